@@ -21,9 +21,9 @@ import (
 // exactly that block id, at that height, in one common round, on this chain.
 // It does not call VerifyCommit or any validator of the code under test: a
 // slot counts when the ed25519 signature in it verifies, under the public key
-// of a validator of the set in force, over the sign-bytes of a reference
-// precommit built from the CLAIMED tuple (chain, height, round, block id) and
-// the slot's timestamp.
+// of some validator of the set in force, over the sign-bytes of a reference
+// precommit built from the CLAIMED tuple (chain, height, block id), the slot's
+// round and the slot's timestamp; a validator counts once per round.
 type commitVerdict struct {
 	ok     bool
 	why    string
@@ -40,19 +40,20 @@ func (w *world) judgeCommit(commit *types.Commit, id types.BlockID, height uint6
 	}
 	total := new(big.Int)
 	type member struct {
+		addr  string
 		pub   crypto.PubKeyEd25519
 		power int64
 	}
-	members := map[string]member{}
+	var members []member
 	for i := 0; i < vals.Size(); i++ {
 		addr, v := vals.GetByIndex(i)
 		k, ok := w.byAddr[string(addr)]
 		if !ok {
 			return commitVerdict{why: "validator-set-unknown-to-harness", power: new(big.Int), total: total}
 		}
-		// power and key from the harness's own genesis record
+		// key from the harness's own genesis record
 		pub, _ := w.keys[k].PubKey().(crypto.PubKeyEd25519)
-		members[string(addr)] = member{pub: pub, power: v.VotingPower}
+		members = append(members, member{addr: string(addr), pub: pub, power: v.VotingPower})
 		total.Add(total, big.NewInt(v.VotingPower))
 	}
 	out := commitVerdict{power: new(big.Int), total: total, round: -1}
@@ -60,15 +61,15 @@ func (w *world) judgeCommit(commit *types.Commit, id types.BlockID, height uint6
 		out.why = "no-commit"
 		return out
 	}
-	// tally per round: every validator at most once per round
+	// tally per round: every validator at most once per round. Who contributed a
+	// precommit is decided by the signature alone (the address, index and size
+	// fields of a vote are not signed: a vote whose address field was damaged
+	// is still that validator's correctly signed precommit): the claimed
+	// address is tried first, then the slot, then everybody.
 	perRound := map[int]*big.Int{}
 	seen := map[string]bool{}
-	for _, pc := range commit.Precommits {
+	for slot, pc := range commit.Precommits {
 		if pc == nil || pc.Signature == nil {
-			continue
-		}
-		m, isVal := members[string(pc.ValidatorAddress)]
-		if !isVal {
 			continue
 		}
 		sig, ok := pc.Signature.(crypto.SignatureEd25519)
@@ -76,10 +77,35 @@ func (w *world) judgeCommit(commit *types.Commit, id types.BlockID, height uint6
 			continue
 		}
 		ref := &types.Vote{Height: height, Round: pc.Round, Timestamp: pc.Timestamp, Type: types.VoteTypePrecommit, BlockID: id}
-		if !ed25519.Verify(m.pub[:], ref.SignBytes(w.chainID), sig[:]) {
+		msg := ref.SignBytes(w.chainID)
+		signer := -1
+		var order []int
+		for i, m := range members {
+			if m.addr == string(pc.ValidatorAddress) {
+				order = append(order, i)
+			}
+		}
+		if slot < len(members) {
+			order = append(order, slot)
+		}
+		for i := range members {
+			order = append(order, i)
+		}
+		tried := map[int]bool{}
+		for _, i := range order {
+			if tried[i] {
+				continue
+			}
+			tried[i] = true
+			if ed25519.Verify(members[i].pub[:], msg, sig[:]) {
+				signer = i
+				break
+			}
+		}
+		if signer < 0 {
 			continue
 		}
-		key := fmt.Sprintf("%d/%x", pc.Round, []byte(pc.ValidatorAddress))
+		key := fmt.Sprintf("%d/%d", pc.Round, signer)
 		if seen[key] {
 			continue
 		}
@@ -87,7 +113,7 @@ func (w *world) judgeCommit(commit *types.Commit, id types.BlockID, height uint6
 		if perRound[pc.Round] == nil {
 			perRound[pc.Round] = new(big.Int)
 		}
-		perRound[pc.Round].Add(perRound[pc.Round], big.NewInt(m.power))
+		perRound[pc.Round].Add(perRound[pc.Round], big.NewInt(members[signer].power))
 		out.signed++
 	}
 	for r, p := range perRound {
